@@ -423,10 +423,10 @@ func shrink(t *testing.T, p *Prop, sc *world.Scenario, v Violation) Failure {
 	out := Execute(t, p, best)
 	os.Unsetenv("VERIF_TRACE")
 	f := Failure{Violation: bestV, Scenario: best, Original: orig, Shrunk: best.NumOps(), Hash: out.Hash}
-	if len(out.Trace) < 400 {
+	if len(out.Trace) < 600 {
 		f.Trace = out.Trace
 	} else {
-		f.Trace = append(out.Trace[:200:200], "...")
+		f.Trace = append(out.Trace[:400:400], "...")
 	}
 	_ = strings.Join
 	return f
